@@ -2,6 +2,7 @@ package parser
 
 import (
 	"errors"
+	"strings"
 
 	"github.com/alecthomas/participle/v2"
 	"github.com/alecthomas/participle/v2/lexer"
@@ -45,6 +46,19 @@ var DefaultParserOptions = []participle.Option{
 	participle.UseLookahead(1),
 	participle.Elide("Whitespace", "EOL"),
 	participle.Unquote("String"),
+	participle.Map(decimalInt, "Int"),
+}
+
+// decimalInt removes the leading zeros of an integer literal. Integers are
+// base-10 (see GRAMMAR.md), but the literal is converted with base detection,
+// where a leading zero selects octal: 010 would be 8 and 08 a syntax error.
+func decimalInt(token lexer.Token) (lexer.Token, error) {
+	digits := strings.TrimLeft(token.Value, "0")
+	if digits == "" {
+		digits = "0"
+	}
+	token.Value = digits
+	return token, nil
 }
 
 type Parser interface {
